@@ -109,6 +109,48 @@ def units(tier):
         u2.replay = lambda model, ob=None, nat=nat: nat(model, ob)
         u2.concrete_search = lambda ob, regions=(), nat=nat: nat({}, ob)
         us.append(u2)
+    # Py_ssize_t takes its own helper (the index protocol): __Pyx_PyLong_AsSsize_t on an exact int
+    pyx = catalogue(types) + "\ndef conv_ssize(x):\n    cdef Py_ssize_t v = x\n    return v\n"
+    tu2 = lambda: (compiled(pyx, None, "dvconv2"), "module route: `cdef Py_ssize_t v = x`, compiled by the working-tree compiler")  # noqa: E731
+    lo, hi = -(1 << 63), (1 << 63) - 1
+    u3 = CUnit("TypeConversion.PyLong_AsSsize_t", {"C05": None, "C36": ["ub", "pre", "subset"]}, "__Pyx_PyLong_AsSsize_t", tu2,
+               filt="__Pyx_PyLong_AsSsize_t", pyobjs=("b",),
+               requires=[("b is an exact int object", lambda e: O.is_long(e.b))],
+               ensures=[("value fits Py_ssize_t => returned exactly, no error",
+                         lambda e: Implies(And(O.intval(e.b) >= lo, O.intval(e.b) <= hi), And(e.result == O.intval(e.b), e.err == 0))),
+                        ("value does not fit => -1 with OverflowError",
+                         lambda e: Implies(Or(O.intval(e.b) < lo, O.intval(e.b) > hi), And(e.result == -1, e.err == ERR("OverflowError"))))],
+               options={"inline": ("*",), "merge": False},
+               subject={"file": "Cython/Utility/TypeConversion.c", "template": "__Pyx_PyLong_AsSsize_t"})
+    u3.exec_cls = O.CExecPyObj
+    u3.err_ghost = True
+
+    def nat3(model, ob=None):
+        import os
+        import subprocess
+        ctext, cfile = cextract.compile_pyx(pyx, name="dvconv2rep")
+        d = os.path.dirname(cfile)
+        so = os.path.join(d, "dvconv2rep.so")
+        p = subprocess.run(["clang", "-shared", "-fPIC", "-O0", "-w", "-I" + cextract.PY_INCLUDE, cfile, "-o", so], capture_output=True, text=True)
+        if p.returncode != 0:
+            return {"confirmed": False, "note": "build failed " + p.stderr[-300:]}
+        code = ("import sys; sys.path.insert(0, %r); import dvconv2rep as m\n"
+                "vals = sorted(set(s * (2**k + d) for k in (0, 29, 30, 31, 59, 60, 61, 62, 63, 64, 65, 89, 90, 91) for d in (-1, 0, 1) for s in (1, -1)))\n"
+                "bad = []\n"
+                "for v in vals:\n"
+                "    try: got = m.conv_ssize(v)\n"
+                "    except OverflowError: got = 'OverflowError'\n"
+                "    want = v if -2**63 <= v < 2**63 else 'OverflowError'\n"
+                "    if got != want: bad.append((v, got))\n"
+                "print(bad[:5])\n" % d)
+        r = subprocess.run(["/venv/bin/python", "-c", code], capture_output=True, text=True, timeout=120)
+        out = r.stdout.strip()
+        return {"inputs": "boundary ints at digit borders", "actual": out or r.stderr[-300:], "confirmed": out != "[]",
+                "how": "catalogue module rebuilt from the working tree; Py_ssize_t conversion compared with the exact range rule",
+                "obligation": getattr(ob, "name", None)}
+    u3.replay = nat3
+    u3.concrete_search = lambda ob, regions=(): nat3({}, ob)
+    us.append(u3)
     return us
 
 
